@@ -323,10 +323,16 @@ def compare(ctx, c, r, mv, mism):
     # hard Gumbel sample under a changed SuperNet temperature: the value is the same one-hot up to the rounding of the
     # straight-through expression (1 - s) + s, which depends on the temperature: either outcome is accepted
     ulp = m == 'SN' and o.get('gumbel') and 'temperature' in r['changed'] and views and views[-1][0] and views[-1][2]
+    # a HARD Gumbel sample is a one-hot vector whose position the model does not know (it knows the noise id only): when the
+    # model says the coefficients of restored and original are different objects, they can still coincide by chance
+    gum_hard = m != 'PIT' and views and views[-1][0] and (o.get('gumbel') or views[-1][3] == 1) and (o.get('hard') or views[-1][2])
     for k, pv in zip(OBS, pred):
         ctx.corr += 1
         if ulp and pv and not r['eq'][k]:
             ctx.dist['float-boundary:hard-gumbel-temperature'] += 1
+            continue
+        if gum_hard and not pv and r['eq'][k]:
+            ctx.dist['undecided:hard-gumbel-sample-coincides'] += 1
             continue
         if pv != r['eq'][k]:
             mism.append(('resume-%s-equal' % k, c, {'model_predicts_equal': pv, 'impl_equal': r['eq'][k], 'changed': r['changed'], 'brief': r['brief'].get(k)}))
